@@ -109,9 +109,12 @@ pub fn run(op: &str, e: &Value, ctx: &mut Ctx) -> Result<Value, String> {
             Ok(json!({"shape_same": shape_same, "events": evs, "outs": outs, "runs": runs.len()}))
         }
         "mem.drop" => {
+            // in[0]: the secret the object is built from; "alts": other secrets.  before / after: the object's storage before the drop
+            // and after it, for in[0]; afters: the storage after the drop for in[0] and every alternative (erased = it no longer
+            // depends on the secret); befores_differ: the storage did depend on the secret while the object lived (non-vacuity).
             let ty = e["ty"].as_str().ok_or("ty")?;
-            let a = arr32(inp(e, 0)?)?;
-            let (before, after) = match ty {
+            let peer_bytes = if ty == "SharedSecret" { Some(arr32(inp(e, 1)?)?) } else { None };
+            let probe = |a: [u8; 32]| -> Result<(Vec<u8>, Vec<u8>), String> { Ok(match ty {
                 "SigningKey" => drop_probe(ed25519_dalek::SigningKey::from_bytes(&a), |k| {
                     use ed25519_dalek::Signer;
                     let _ = k.sign(b"use");
@@ -130,14 +133,24 @@ pub fn run(op: &str, e: &Value, ctx: &mut Ctx) -> Result<Value, String> {
                     let _ = x25519_dalek::PublicKey::from(k);
                 }),
                 "SharedSecret" => {
-                    let peer = x25519_dalek::PublicKey::from(arr32(inp(e, 1)?)?);
+                    let peer = x25519_dalek::PublicKey::from(peer_bytes.unwrap());
                     drop_probe(x25519_dalek::StaticSecret::from(a).diffie_hellman(&peer), |s| {
                         let _ = s.was_contributory();
                     })
                 }
                 _ => return Err("ty".into()),
-            };
-            Ok(json!({"before": jbytes(&before), "after": jbytes(&after)}))
+            }) };
+            let (before, after) = probe(arr32(inp(e, 0)?)?)?;
+            let mut afters = vec![jbytes(&after)];
+            let mut befores_differ = false;
+            if let Some(alts) = e["alts"].as_array() {
+                for x in alts {
+                    let (b2, a2) = probe(arr32(x)?)?;
+                    befores_differ |= b2 != before;
+                    afters.push(jbytes(&a2));
+                }
+            }
+            Ok(json!({"before": jbytes(&before), "after": jbytes(&after), "afters": afters, "befores_differ": befores_differ}))
         }
         "mem.zeroize" => {
             // in = [secret, secret', ...]: the same type zeroized from DIFFERENT secret values.  r: the value of the first through the public
